@@ -16,13 +16,22 @@ RULE = ("engine: TLC-enumerated matrices, non-trivial = greedy differs from ever
 def run(chk):
     quick = chk.tier == "quick"
     c17.assignment_engine(chk, quick)
-    n = 10 if quick else 200
+    # R1: the slot-world behaviours with focus on association (gate at the idle boundary, duplicates on one slot)
+    from checks import tracker_common as tc
+    for name, kw in (("r1-d3-idle1", dict(depth=3, MaxIdle=1, MaxDets=2, Confs={900, 500}, Slots={1})),
+                     ("r1-d4-idle2-maha", dict(depth=4, MaxIdle=2, Metric="maha", Thr=1000, MaxDets=1, Confs={900}, Slots={1}, Scenes={1}))):
+        r, c = tc.generate(chk, name, **kw)
+        for kind in (("sort",) if quick else ("sort", "batchsort", "visual")):
+            tc.replay(chk, name, r, c, kind, 2, "C02", "nt_C01")
+    n = 12 if quick else 200
     traces, greedy, near = [], 0, 0
     for i in range(n):
         kind = ("sort", "batchsort", "visual", "sort")[i % 4]
         metric = "maha" if i % 3 == 2 else "iou"
+        # non-default Kalman weights in some Mahalanobis runs: the gate must use the configured filter
+        wts = [("--pos-w", "0.1", "--vel-w", "0.0125"), ("--pos-w", "0.025", "--vel-w", "0.00625"), ()][i % 3] if metric == "maha" and i % 2 == 0 else ()
         t = r2.record(chk, f"r2-{i}", kind, chk.seed * 1000 + i, steps=150 if quick else 300, shards=1 + i % 3, metric=metric,
-                      objects=3 + i % 3, spread=(60, 90, 140)[i % 3])
+                      objects=3 + i % 3, spread=(60, 90, 140)[i % 3], extra=list(wts))
         s = r2.trace_stats(t)
         greedy += s["greedy_not_optimal"]
         near += s["near_threshold"]
